@@ -168,3 +168,713 @@ Proof.
   intros (Hne & Hlt). pose proof key_facts_all as E. rewrite forallb_forall in E. apply E.
   apply in_map_iff. exists (N.to_nat c). split; [apply N2Nat.id|]. apply in_seq. lia.
 Qed.
+
+Lemma sys_prefix_split k : starts_with s_SYS_prefix k = true -> exists y r, split slash k = s_SYS :: y :: r.
+Proof.
+  intros H. destruct (starts_with_app _ _ H) as (r & ->). unfold s_SYS_prefix, split. cbn [app split_aux N.eqb Pos.eqb slash rev].
+  change (split_aux slash r []) with (split slash r).
+  destruct (split slash r) as [|y r'] eqn:E; [now elim (split_nonempty slash r)|]. exists y, r'. reflexivity.
+Qed.
+
+(* a key that parses to the registration path of a small client is that client's registration key *)
+Lemma key_of_path k p : parse_segments k = Ok p -> k = key_of p.
+Proof. intros H. apply parse_segments_good in H as (-> & _). unfold key_of. now rewrite join_split. Qed.
+
+Lemma last_gg_app c a b : last_gg c (a ++ b) = match last_gg c b with Some x => Some x | None => last_gg c a end.
+Proof.
+  induction a as [|x a IH]; cbn [app last_gg]; [now destruct (last_gg c b)|].
+  rewrite IH. now destruct (last_gg c b).
+Qed.
+Lemma last_lw_app c a b : last_lw c (a ++ b) = match last_lw c b with Some x => Some x | None => last_lw c a end.
+Proof.
+  induction a as [|x a IH]; cbn [app last_lw]; [now destruct (last_lw c b)|].
+  rewrite IH. now destruct (last_lw c b).
+Qed.
+
+(* what reg_del says about a key it answers with an action *)
+Lemma reg_del_shape k :
+  reg_del k = [] \/
+  exists a cs X, split slash k = [a; s_clients; cs; s_graveGoods] /\ client_of_str cs = Some X /\ reg_del k = [AGG X None] \/
+                 split slash k = [a; s_clients; cs; s_lastWill] /\ client_of_str cs = Some X /\ reg_del k = [ALW X None].
+Proof.
+  unfold reg_del. destruct (split slash k) as [|a [|b [|cs [|d [|e r]]]]]; try (now left).
+  destruct (str_eqb_spec b s_clients) as [->|]; [|now left]. destruct (client_of_str cs) as [X|] eqn:EX; [|now left].
+  destruct (str_eqb_spec d s_graveGoods) as [->|]; [right; exists a, cs, X; left; auto|].
+  destruct (str_eqb_spec d s_lastWill) as [->|]; [right; exists a, cs, X; right; auto|now left].
+Qed.
+
+Lemma key_facts_spec c : small c ->
+  split slash (key_of (gg_path c)) = gg_path c /\ split slash (key_of (lw_path c)) = lw_path c /\
+  starts_with s_SYS_prefix (key_of (gg_path c)) = true /\ starts_with s_SYS_prefix (key_of (lw_path c)) = true /\
+  is_reg_topic s_graveGoods (key_of (gg_path c)) = true /\ is_reg_topic s_lastWill (key_of (gg_path c)) = false /\
+  is_reg_topic s_lastWill (key_of (lw_path c)) = true /\ is_reg_topic s_graveGoods (key_of (lw_path c)) = false /\
+  reg_del (key_of (gg_path c)) = [AGG c None] /\ reg_del (key_of (lw_path c)) = [ALW c None].
+Proof.
+  intros Hs. pose proof (key_facts_small c Hs) as F. unfold key_facts in F. cbv zeta in F.
+  apply andb_prop in F as [F F10]. apply andb_prop in F as [F F9]. apply andb_prop in F as [F F8]. apply andb_prop in F as [F F7].
+  apply andb_prop in F as [F F6]. apply andb_prop in F as [F F5]. apply andb_prop in F as [F F4]. apply andb_prop in F as [F F3].
+  apply andb_prop in F as [F1 F2].
+  repeat split; try assumption.
+  - now destruct (path_eqb_spec (split slash (key_of (gg_path c))) (gg_path c)).
+  - now destruct (path_eqb_spec (split slash (key_of (lw_path c))) (lw_path c)).
+  - now apply Bool.negb_true_iff.
+  - now apply Bool.negb_true_iff.
+  - destruct (reg_del (key_of (gg_path c))) as [|[| |X [g|]| |] [|? ?]]; try discriminate. apply N.eqb_eq in F9. now subst.
+  - destruct (reg_del (key_of (lw_path c))) as [|[| | |X [g|]|] [|? ?]]; try discriminate. apply N.eqb_eq in F10. now subst.
+Qed.
+
+(* the deletion of one key, seen from the table entries of a small client *)
+Lemma last_gg_del_action c c' k :
+  c <> 0 -> small c' ->
+  last_gg c' (del_action c k) = if str_eqb k (key_of (gg_path c')) then Some None else None.
+Proof.
+  intros Hc Hs. destruct (key_facts_spec c' Hs) as (_ & _ & Hpre & _ & _ & _ & _ & _ & Hrd & _).
+  destruct (str_eqb_spec k (key_of (gg_path c'))) as [->|Hne].
+  - unfold del_action. rewrite Hpre, Hrd. destruct (N.eqb_spec c 0); [contradiction|]. cbn [last_gg]. now rewrite N.eqb_refl.
+  - unfold del_action. destruct (starts_with s_SYS_prefix k) eqn:Ep; [|reflexivity].
+    destruct (N.eqb c 0); [reflexivity|].
+    destruct (reg_del_shape k) as [->|(a & cs & X & [(Hsp & HX & ->)|(Hsp & HX & ->)])]; [reflexivity| |reflexivity].
+    cbn [last_gg]. destruct (N.eqb_spec c' X) as [<-|]; [|reflexivity]. exfalso. apply Hne.
+    destruct (sys_prefix_split k Ep) as (y & r & Hsp'). rewrite Hsp in Hsp'. injection Hsp' as -> _ _.
+    destruct Hs as (Hs0 & Hs1). destruct (client_of_str_sound cs c' HX Hs0) as (-> & _).
+    rewrite <- (join_split slash k), Hsp. reflexivity.
+Qed.
+
+Lemma last_lw_del_action c c' k :
+  c <> 0 -> small c' ->
+  last_lw c' (del_action c k) = if str_eqb k (key_of (lw_path c')) then Some None else None.
+Proof.
+  intros Hc Hs. destruct (key_facts_spec c' Hs) as (_ & _ & _ & Hpre & _ & _ & _ & _ & _ & Hrd).
+  destruct (str_eqb_spec k (key_of (lw_path c'))) as [->|Hne].
+  - unfold del_action. rewrite Hpre, Hrd. destruct (N.eqb_spec c 0); [contradiction|]. cbn [last_lw]. now rewrite N.eqb_refl.
+  - unfold del_action. destruct (starts_with s_SYS_prefix k) eqn:Ep; [|reflexivity].
+    destruct (N.eqb c 0); [reflexivity|].
+    destruct (reg_del_shape k) as [->|(a & cs & X & [(Hsp & HX & ->)|(Hsp & HX & ->)])]; [reflexivity|reflexivity|].
+    cbn [last_lw]. destruct (N.eqb_spec c' X) as [<-|]; [|reflexivity]. exfalso. apply Hne.
+    destruct (sys_prefix_split k Ep) as (y & r & Hsp'). rewrite Hsp in Hsp'. injection Hsp' as -> _ _.
+    destruct Hs as (Hs0 & Hs1). destruct (client_of_str_sound cs c' HX Hs0) as (-> & _).
+    rewrite <- (join_split slash k), Hsp. reflexivity.
+Qed.
+
+Lemma last_gg_del_actions c c' keys :
+  c <> 0 -> small c' ->
+  last_gg c' (flat_map (del_action c) keys) = if existsb (fun k => str_eqb k (key_of (gg_path c'))) keys then Some None else None.
+Proof.
+  intros Hc Hs. induction keys as [|k keys IH]; [reflexivity|]. cbn [flat_map existsb].
+  rewrite last_gg_app, IH, (last_gg_del_action c c' k Hc Hs).
+  destruct (existsb _ keys); [now rewrite Bool.orb_true_r|]. now rewrite Bool.orb_false_r.
+Qed.
+Lemma last_lw_del_actions c c' keys :
+  c <> 0 -> small c' ->
+  last_lw c' (flat_map (del_action c) keys) = if existsb (fun k => str_eqb k (key_of (lw_path c'))) keys then Some None else None.
+Proof.
+  intros Hc Hs. induction keys as [|k keys IH]; [reflexivity|]. cbn [flat_map existsb].
+  rewrite last_lw_app, IH, (last_lw_del_action c c' k Hc Hs).
+  destruct (existsb _ keys); [now rewrite Bool.orb_true_r|]. now rewrite Bool.orb_false_r.
+Qed.
+
+(* ---- one request at a time ---- *)
+Lemma gg_lw_differ c c' : gg_path c <> lw_path c'.
+Proof. unfold gg_path, lw_path. intros E. injection E as _ E. discriminate. Qed.
+
+Lemma small_path_inj_gg c c' : c < 256 -> c' < 256 -> gg_path c = gg_path c' -> c = c'.
+Proof. intros H H' E. unfold gg_path in E. injection E as E. now apply client_str_inj. Qed.
+Lemma small_path_inj_lw c c' : c < 256 -> c' < 256 -> lw_path c = lw_path c' -> c = c'.
+Proof. intros H H' E. unfold lw_path in E. injection E as E. now apply client_str_inj. Qed.
+
+Lemma is_reg_topic_split leaf k : is_reg_topic leaf k = true -> exists a cs, split slash k = [a; s_clients; cs; leaf].
+Proof.
+  unfold is_reg_topic. destruct (split slash k) as [|a [|b [|cs [|d [|e r]]]]]; try discriminate.
+  intros H. apply andb_prop in H as [H1 H2]. apply str_eqb_eq in H1, H2. subst. eauto.
+Qed.
+
+(* a client that is allowed to write a key under $SYS/ writes its own registration *)
+Lemma guard_own c k a cs leaf :
+  c <> 0 -> check_read_only k c = None -> starts_with s_SYS_prefix k = true -> split slash k = [a; s_clients; cs; leaf] ->
+  a = s_SYS /\ cs = client_str c.
+Proof.
+  intros Hc Hg Hp Hs. destruct (sys_prefix_split k Hp) as (y & r & Hs'). rewrite Hs in Hs'. injection Hs' as -> _ _.
+  split; [reflexivity|]. unfold check_read_only in Hg. destruct k as [|x k]; [discriminate|].
+  destruct (N.eqb_spec c 0); [contradiction|]. rewrite Hs in Hg. cbn [negb] in Hg. rewrite str_eqb_refl in Hg. cbn [negb] in Hg.
+  rewrite str_eqb_refl in Hg. cbn [negb orb] in Hg. destruct (str_eqb_spec cs (client_str c)) as [->|]; [reflexivity|discriminate].
+Qed.
+
+Lemma do_insert_guard s c k e f : o_res (snd (do_insert s c k e f)) = RUnit -> check_read_only k c = None.
+Proof. unfold do_insert. destruct (check_read_only k c); [discriminate|reflexivity]. Qed.
+
+Definition gg_val (e : entry) : option (list str) := match entry_val e with JNull => None | v => dec_grave_goods v end.
+Definition lw_val (e : entry) : option (list (str * json)) := match entry_val e with JNull => None | v => dec_last_will v end.
+
+Lemma get_gg_AGG t c c' g : c_get c' (t_gg (apply_all t [AGG c g])) = if N.eqb c' c then g else c_get c' (t_gg t).
+Proof. rewrite apply_all_gg by (repeat constructor). cbn [last_gg]. now destruct (N.eqb c' c). Qed.
+Lemma get_lw_AGG t c c' g : c_get c' (t_lw (apply_all t [AGG c g])) = c_get c' (t_lw t).
+Proof. rewrite apply_all_lw by (repeat constructor). reflexivity. Qed.
+Lemma get_lw_ALW t c c' g : c_get c' (t_lw (apply_all t [ALW c g])) = if N.eqb c' c then g else c_get c' (t_lw t).
+Proof. rewrite apply_all_lw by (repeat constructor). cbn [last_lw]. now destruct (N.eqb c' c). Qed.
+Lemma get_gg_ALW t c c' g : c_get c' (t_gg (apply_all t [ALW c g])) = c_get c' (t_gg t).
+Proof. rewrite apply_all_gg by (repeat constructor). reflexivity. Qed.
+
+Lemma reg_track_insert s t c k e force :
+  Inv s -> RegTracks s t -> small c ->
+  o_res (snd (do_insert s c k e force)) = RUnit ->
+  (forall ex ch e' p, decide (abs s p) e force = DOk ex ch e' -> entry_val e' = entry_val e) ->
+  RegTracks (fst (do_insert s c k e force)) (apply_all t (upd_action (Some c) k e)).
+Proof.
+  intros HI HT (Hc0 & Hc) Hres Hval. pose proof (do_insert_effect s c k e force HI) as H. cbv zeta in H. rewrite Hres in H.
+  destruct H as (p & ex & ch & e' & Hp & Hd & _ & Hm). specialize (Hval ex ch e' p Hd).
+  pose proof (do_insert_guard s c k e force Hres) as Hg.
+  pose proof (key_of_path k p Hp) as Hk. pose proof (proj1 (parse_segments_good k p Hp)) as Hsp.
+  intros c' Hs'. pose proof Hs' as (Hs0 & Hs1). destruct (HT c' Hs') as (HTg & HTl).
+  destruct (key_facts_spec c' Hs') as (Sg & Sl & Pg & Pl & Rg & Rgl & Rl & Rlg & _ & _).
+  unfold gg_store, lw_store. rewrite !(Hm _). unfold m_set.
+  destruct (path_eqb_spec p (gg_path c')) as [Eg|Ng].
+  - (* the grave goods key of c': then c' = c *)
+    rewrite Eg in Hk, Hsp. rewrite Hk. unfold upd_action. rewrite Pg, Rg.
+    assert (c' = c).
+    { rewrite <- Hk in Pg. destruct (guard_own c k s_SYS (client_str c') s_graveGoods Hc0 Hg Pg) as (_ & E); [now rewrite <- Hsp|].
+      now apply client_str_inj. }
+    subst c'. destruct (path_eqb_spec p (lw_path c)) as [E|_]; [rewrite Eg in E; now elim (gg_lw_differ c c)|].
+    rewrite get_gg_AGG, get_lw_AGG, N.eqb_refl. split; [|exact HTl]. unfold gg_dec. now rewrite Hval.
+  - destruct (path_eqb_spec p (lw_path c')) as [El|Nl].
+    + rewrite El in Hk, Hsp. rewrite Hk. unfold upd_action. rewrite Pl, Rlg, Rl.
+      assert (c' = c).
+      { rewrite <- Hk in Pl. destruct (guard_own c k s_SYS (client_str c') s_lastWill Hc0 Hg Pl) as (_ & E); [now rewrite <- Hsp|].
+        now apply client_str_inj. }
+      subst c'. rewrite get_gg_ALW, get_lw_ALW, N.eqb_refl. split; [exact HTg|]. unfold lw_dec. now rewrite Hval.
+    + (* another key: the entries of c' stay, in the store and in the tables *)
+      fold (gg_store s c') (lw_store s c'). rewrite <- HTg, <- HTl.
+      assert (Hno : forall leaf, is_reg_topic leaf k = true -> starts_with s_SYS_prefix k = true -> p = [s_SYS; s_clients; client_str c; leaf]).
+      { intros leaf Hr Hpre. destruct (is_reg_topic_split leaf k Hr) as (a & cs & Hs).
+        destruct (guard_own c k a cs leaf Hc0 Hg Hpre Hs) as (-> & ->). now rewrite Hsp. }
+      unfold upd_action. destruct (starts_with s_SYS_prefix k) eqn:Epre.
+      * destruct (is_reg_topic s_graveGoods k) eqn:Er1.
+        { rewrite get_gg_AGG, get_lw_AGG. destruct (N.eqb_spec c' c) as [->|]; [|auto]. now elim Ng; apply Hno. }
+        destruct (is_reg_topic s_lastWill k) eqn:Er2.
+        { rewrite get_gg_ALW, get_lw_ALW. destruct (N.eqb_spec c' c) as [->|]; [|auto]. now elim Nl; apply Hno. }
+        unfold apply_all. cbn [fold_left]. auto.
+      * unfold apply_all. cbn [fold_left apply_action t_gg t_lw]. auto.
+Qed.
+
+Lemma parse_reg_key_gg c k p : small c -> parse_segments k = Ok p -> (p = gg_path c <-> k = key_of (gg_path c)).
+Proof.
+  intros Hs Hp. destruct (key_facts_spec c Hs) as (Sg & _). split.
+  - intros ->. now apply key_of_path.
+  - intros ->. apply parse_segments_good in Hp as (-> & _). exact Sg.
+Qed.
+Lemma parse_reg_key_lw c k p : small c -> parse_segments k = Ok p -> (p = lw_path c <-> k = key_of (lw_path c)).
+Proof.
+  intros Hs Hp. destruct (key_facts_spec c Hs) as (_ & Sl & _). split.
+  - intros ->. now apply key_of_path.
+  - intros ->. apply parse_segments_good in Hp as (-> & _). exact Sl.
+Qed.
+
+Lemma reg_track_delete s t c k :
+  Inv s -> RegTracks s t -> c <> 0 ->
+  RegTracks (fst (do_delete s c k))
+            (apply_all t (match o_res (snd (do_delete s c k)) with RValue _ => del_action c k | _ => [] end)).
+Proof.
+  intros HI HT Hc0. pose proof (do_delete_effect s c k HI) as H. cbv zeta in H.
+  destruct (o_res (snd (do_delete s c k))) eqn:Er; try contradiction.
+  - destruct H as (p & e & Hp & Ha & _ & _ & Hm). intros c' Hs'. destruct (HT c' Hs') as (HTg & HTl).
+    rewrite apply_all_gg, apply_all_lw by (unfold del_action; destruct (starts_with _ _); [destruct (N.eqb c 0); [constructor|];
+      destruct (reg_del_shape k) as [->|(a & cs & X & [(_ & _ & ->)|(_ & _ & ->)])]|]; repeat constructor).
+    rewrite (last_gg_del_action c c' k Hc0 Hs'), (last_lw_del_action c c' k Hc0 Hs').
+    unfold gg_store, lw_store. rewrite !(Hm _). unfold m_del. split.
+    + destruct (path_eqb_spec p (gg_path c')) as [E|N]; destruct (str_eqb_spec k (key_of (gg_path c'))) as [E'|N']; try reflexivity.
+      * elim N'. now apply (parse_reg_key_gg c' k p).
+      * elim N. now apply (parse_reg_key_gg c' k p).
+      * exact HTg.
+    + destruct (path_eqb_spec p (lw_path c')) as [E|N]; destruct (str_eqb_spec k (key_of (lw_path c'))) as [E'|N']; try reflexivity.
+      * elim N'. now apply (parse_reg_key_lw c' k p).
+      * elim N. now apply (parse_reg_key_lw c' k p).
+      * exact HTl.
+  - destruct H as (_ & Hm). intros c' Hs'. unfold apply_all. cbn [fold_left]. unfold gg_store, lw_store. rewrite !(Hm _). now apply HT.
+Qed.
+
+(* the keys a pattern deletion removed *)
+Lemma existsb_removed s pat q :
+  Inv s -> split slash (key_of q) = q ->
+  existsb (fun k => str_eqb k (key_of q)) (map fst (map kv_of (collect (data s) [] pat))) =
+  match abs s q with Some _ => store_match pat q | None => false end.
+Proof.
+  intros HI Hq. pose proof HI as (Hw & _).
+  destruct (existsb _ _) eqn:Ex.
+  - apply existsb_exists in Ex as (k & Hin & Ek). apply str_eqb_eq in Ek. subst k.
+    rewrite map_map in Hin. apply in_map_iff in Hin as ([q' e] & Ek & Hin). cbn [kv_of fst snd] in Ek.
+    apply (collect_spec _ _ _ _ _ Hw) in Hin as (k' & -> & Hl & Hm). cbn [app] in *.
+    pose proof (key_of_parse s k' e HI Hl) as Hp. rewrite Ek in Hp. apply parse_segments_good in Hp as (Hk' & _).
+    rewrite Hq in Hk'. subst k'. unfold abs. now rewrite Hl, Hm.
+  - destruct (abs s q) as [e|] eqn:Ea; [|reflexivity]. destruct (store_match pat q) eqn:Em; [|reflexivity].
+    exfalso. apply Bool.not_true_iff_false in Ex. apply Ex. apply existsb_exists. exists (key_of q). split; [|apply str_eqb_refl].
+    rewrite map_map. apply in_map_iff. exists (q, e). split; [reflexivity|].
+    apply (collect_spec _ _ _ _ _ Hw). exists q. auto.
+Qed.
+
+Lemma del_actions_no_clear c keys : Forall no_clear (flat_map (del_action c) keys).
+Proof.
+  apply Forall_forall. intros a Hin. apply in_flat_map in Hin as (k & _ & Hin). unfold del_action in Hin.
+  destruct (starts_with _ _); [destruct (N.eqb c 0); [destruct Hin|]|destruct Hin as [<-|[]]; exact I].
+  destruct (reg_del_shape k) as [E|(a' & cs & X & [(_ & _ & E)|(_ & _ & E)])]; rewrite E in Hin; [destruct Hin| |]; destruct Hin as [<-|[]]; exact I.
+Qed.
+
+Lemma reg_track_pdelete s t c pat :
+  Inv s -> RegTracks s t -> c <> 0 ->
+  RegTracks (fst (do_pdelete s c false pat))
+            (apply_all t (match o_res (snd (do_pdelete s c false pat)) with RKvs l => flat_map (fun kv => del_action c (fst kv)) l | _ => [] end)).
+Proof.
+  intros HI HT Hc0. pose proof (do_pdelete_effect s c pat HI) as H. cbv zeta in H.
+  destruct (o_res (snd (do_pdelete s c false pat))) eqn:Er; try contradiction.
+  2:{ rewrite H. unfold apply_all. cbn [fold_left]. exact HT. }
+  destruct H as (_ & Hm & ->).
+  replace (flat_map (fun kv : str * json => del_action c (fst kv)) (map kv_of (collect (data s) [] (kseg_parse pat))))
+      with (flat_map (del_action c) (map fst (map kv_of (collect (data s) [] (kseg_parse pat)))))
+      by (generalize (map kv_of (collect (data s) [] (kseg_parse pat))); intros l; induction l as [|x l IH]; cbn; [reflexivity|now rewrite IH]).
+    intros c' Hs'. destruct (HT c' Hs') as (HTg & HTl). destruct (key_facts_spec c' Hs') as (Sg & Sl & _).
+    rewrite apply_all_gg, apply_all_lw by apply del_actions_no_clear.
+    rewrite (last_gg_del_actions c c' _ Hc0 Hs'), (last_lw_del_actions c c' _ Hc0 Hs').
+    rewrite (existsb_removed s _ (gg_path c') HI Sg), (existsb_removed s _ (lw_path c') HI Sl).
+    unfold gg_store, lw_store in *. rewrite !(Hm _). unfold m_pdel. split.
+    + destruct (abs s (gg_path c')) as [e|]; destruct (store_match (kseg_parse pat) (gg_path c')); try reflexivity; exact HTg.
+    + destruct (abs s (lw_path c')) as [e|]; destruct (store_match (kseg_parse pat) (lw_path c')); try reflexivity; exact HTl.
+Qed.
+
+(* ---- runs of elementary requests, seen from one path ---- *)
+Definition misses (q : list str) (o : op) : Prop :=
+  match o with OSet _ k _ _ => parse_segments k <> Ok q | _ => True end.
+
+Lemma end_run_keep q ops : forall s,
+  Inv s -> LenInv s -> Forall end_op ops -> Forall (misses q) ops -> nocrash (trace s ops) ->
+  Inv (final s ops) /\ LenInv (final s ops) /\ (abs (final s ops) q = abs s q \/ abs (final s ops) q = None).
+Proof.
+  induction ops as [|o ops IH]; intros s HI HL He Hmi Hnc; [cbn; auto|].
+  apply Forall_cons_iff in He as (He & Hes). apply Forall_cons_iff in Hmi as (Hm & Hms).
+  assert (Hc : o_res (snd (step s o)) <> RCrash).
+  { assert (H : is_crash (snd (step s o)) = false) by (apply Hnc; now left). unfold is_crash in H.
+    destruct (o_res (snd (step s o))); congruence. }
+  assert (Hnc' : nocrash (trace (fst (step s o)) ops)) by (intros x Hx; apply Hnc; now right).
+  assert (Hany : any_req o) by (destruct o; try contradiction; unfold any_req; cbn; tauto).
+  assert (Himp : import_ok o) by (destruct o; try contradiction; exact I).
+  destruct (step_refines_any s o HI HL Hany Himp Hc) as (HI' & HL' & Hw & _).
+  change (final s (o :: ops)) with (final (fst (step s o)) ops).
+  destruct (IH (fst (step s o)) HI' HL' Hes Hms Hnc') as (HI2 & HL2 & Hq). split; [exact HI2|]. split; [exact HL2|].
+  assert (Hstep : abs (fst (step s o)) q = abs s q \/ abs (fst (step s o)) q = None).
+  { destruct o; try contradiction; cbn [write_effect misses] in Hw, Hm.
+    - destruct (o_res (snd (step s (OSet c k v force)))); try (left; now rewrite Hw).
+      destruct Hw as (p & Hp & Hw). left. rewrite Hw. unfold m_set. destruct (path_eqb_spec p q) as [->|]; [contradiction|reflexivity].
+    - destruct (o_res (snd (step s (OPDelete c p)))); try (left; now rewrite Hw).
+      rewrite Hw. unfold m_pdel. destruct (store_match _ q); [now right|now left].
+    - left. destruct (o_res (snd (step s (OUnsubscribe c t)))); now rewrite Hw.
+    - left. destruct (o_res (snd (step s (OUnsubscribeLs c t)))); now rewrite Hw. }
+  destruct Hq as [Hq|Hq]; [|now right]. rewrite Hq. exact Hstep.
+Qed.
+
+Lemma sets_run_same q ops : forall s,
+  Inv s -> LenInv s -> Forall (fun o => match o with OSet _ _ _ _ => True | _ => False end) ops -> Forall (misses q) ops ->
+  nocrash (trace s ops) -> abs (final s ops) q = abs s q.
+Proof.
+  induction ops as [|o ops IH]; intros s HI HL He Hmi Hnc; [reflexivity|].
+  apply Forall_cons_iff in He as (He & Hes). apply Forall_cons_iff in Hmi as (Hm & Hms).
+  assert (Hc : o_res (snd (step s o)) <> RCrash).
+  { assert (H : is_crash (snd (step s o)) = false) by (apply Hnc; now left). unfold is_crash in H.
+    destruct (o_res (snd (step s o))); congruence. }
+  assert (Hnc' : nocrash (trace (fst (step s o)) ops)) by (intros x Hx; apply Hnc; now right).
+  assert (Hany : any_req o) by (destruct o; try contradiction; unfold any_req; cbn; tauto).
+  assert (Himp : import_ok o) by (destruct o; try contradiction; exact I).
+  destruct (step_refines_any s o HI HL Hany Himp Hc) as (HI' & HL' & Hw & _).
+  change (final s (o :: ops)) with (final (fst (step s o)) ops). rewrite (IH _ HI' HL' Hes Hms Hnc').
+  destruct o; try contradiction; cbn [write_effect misses] in Hw, Hm.
+  destruct (o_res (snd (step s (OSet c k v force)))); try (now rewrite Hw).
+  destruct Hw as (p & Hp & Hw). rewrite Hw. unfold m_set. destruct (path_eqb_spec p q) as [->|]; [contradiction|reflexivity].
+Qed.
+
+(* the pattern of the server's own clean-up at a session end, for the 255 small clients *)
+Definition own_pat (c : cid) : str := topic [s_SYS; s_clients; client_str c; s_hash].
+Definition pat_facts (c : cid) : bool :=
+  let p := kseg_parse (own_pat c) in
+  wf_pat p && store_match p (gg_path c) && store_match p (lw_path c) && match own_pat c with [] => false | _ => true end.
+Lemma pat_facts_all : forallb pat_facts (map N.of_nat (seq 1 255)) = true.
+Proof. vm_compute. reflexivity. Qed.
+Lemma pat_facts_small c : small c ->
+  wf_pat (kseg_parse (own_pat c)) = true /\ store_match (kseg_parse (own_pat c)) (gg_path c) = true /\
+  store_match (kseg_parse (own_pat c)) (lw_path c) = true /\ check_read_only (own_pat c) 0 = None.
+Proof.
+  intros (Hne & Hlt). pose proof pat_facts_all as E. rewrite forallb_forall in E.
+  assert (F : pat_facts c = true).
+  { apply E. apply in_map_iff. exists (N.to_nat c). split; [apply N2Nat.id|]. apply in_seq. lia. }
+  unfold pat_facts in F. cbv zeta in F. apply andb_prop in F as [F F4]. apply andb_prop in F as [F F3]. apply andb_prop in F as [F1 F2].
+  repeat split; assumption.
+Qed.
+
+(* ---- the registrations of other clients that a burial removed ---- *)
+Lemma last_gg_not_own c c' L : c' <> c -> last_gg c' (filter (not_own c) L) = last_gg c' L.
+Proof.
+  intros Hne. induction L as [|a L IH]; [reflexivity|]. cbn [filter last_gg].
+  destruct (not_own c a) eqn:En; cbn [last_gg]; rewrite IH; [reflexivity|].
+  destruct (last_gg c' L); [reflexivity|]. destruct a as [| |x g|x g|]; try discriminate; [|reflexivity].
+  cbn [not_own] in En. apply Bool.negb_false_iff, N.eqb_eq in En. subst x. now destruct (N.eqb_spec c' c).
+Qed.
+Lemma last_lw_not_own c c' L : c' <> c -> last_lw c' (filter (not_own c) L) = last_lw c' L.
+Proof.
+  intros Hne. induction L as [|a L IH]; [reflexivity|]. cbn [filter last_lw].
+  destruct (not_own c a) eqn:En; cbn [last_lw]; rewrite IH; [reflexivity|].
+  destruct (last_lw c' L); [reflexivity|]. destruct a as [| |x g|x g|]; try discriminate; [reflexivity|].
+  cbn [not_own] in En. apply Bool.negb_false_iff, N.eqb_eq in En. subst x. now destruct (N.eqb_spec c' c).
+Qed.
+
+Definition is_none {A} (o : option A) : bool := match o with None => true | Some _ => false end.
+
+(* a stored path under $SYS/: deleting its key, seen from the tables of a small client *)
+Lemma last_gg_reg_del c' q y r :
+  small c' -> q = s_SYS :: y :: r -> split slash (key_of q) = q ->
+  last_gg c' (reg_del (key_of q)) = if path_eqb q (gg_path c') then Some None else None.
+Proof.
+  intros Hs Hq Hsp. assert (Hpre : starts_with s_SYS_prefix (key_of q) = true) by (apply (prefixed_of_split _ y r); now rewrite Hsp).
+  pose proof (last_gg_del_action 1 c' (key_of q) ltac:(discriminate) Hs) as H. unfold del_action in H. rewrite Hpre in H. cbn [N.eqb] in H.
+  rewrite H. destruct (key_facts_spec c' Hs) as (Sg & _).
+  destruct (str_eqb_spec (key_of q) (key_of (gg_path c'))) as [E|N]; destruct (path_eqb_spec q (gg_path c')) as [E'|N']; try reflexivity.
+  - elim N'. now rewrite <- Hsp, E, Sg.
+  - elim N. now rewrite E'.
+Qed.
+Lemma last_lw_reg_del c' q y r :
+  small c' -> q = s_SYS :: y :: r -> split slash (key_of q) = q ->
+  last_lw c' (reg_del (key_of q)) = if path_eqb q (lw_path c') then Some None else None.
+Proof.
+  intros Hs Hq Hsp. assert (Hpre : starts_with s_SYS_prefix (key_of q) = true) by (apply (prefixed_of_split _ y r); now rewrite Hsp).
+  pose proof (last_lw_del_action 1 c' (key_of q) ltac:(discriminate) Hs) as H. unfold del_action in H. rewrite Hpre in H. cbn [N.eqb] in H.
+  rewrite H. destruct (key_facts_spec c' Hs) as (_ & Sl & _).
+  destruct (str_eqb_spec (key_of q) (key_of (lw_path c'))) as [E|N]; destruct (path_eqb_spec q (lw_path c')) as [E'|N']; try reflexivity.
+  - elim N'. now rewrite <- Hsp, E, Sl.
+  - elim N. now rewrite E'.
+Qed.
+
+Definition sys_stored (m : list str * entry) : Prop :=
+  (exists y r, fst m = s_SYS :: y :: r) /\ split slash (key_of (fst m)) = fst m.
+
+Lemma last_gg_flat c' (after : core) ms :
+  small c' -> Forall sys_stored ms ->
+  last_gg c' (flat_map (fun m : list str * entry => match lookup (data after) (fst m) with None => reg_del (key_of (fst m)) | Some _ => [] end) ms) =
+  if existsb (fun m => path_eqb (fst m) (gg_path c') && is_none (lookup (data after) (fst m))) ms then Some None else None.
+Proof.
+  intros Hs. induction 1 as [|m ms ((y & r & Hq) & Hsp) _ IH]; [reflexivity|]. cbn [flat_map existsb].
+  rewrite last_gg_app, IH. destruct (existsb _ ms); [now rewrite Bool.orb_true_r|]. rewrite Bool.orb_false_r.
+  destruct (lookup (data after) (fst m)); cbn [is_none]; [now rewrite Bool.andb_false_r|]. rewrite Bool.andb_true_r.
+  now apply (last_gg_reg_del c' (fst m) y r).
+Qed.
+Lemma last_lw_flat c' (after : core) ms :
+  small c' -> Forall sys_stored ms ->
+  last_lw c' (flat_map (fun m : list str * entry => match lookup (data after) (fst m) with None => reg_del (key_of (fst m)) | Some _ => [] end) ms) =
+  if existsb (fun m => path_eqb (fst m) (lw_path c') && is_none (lookup (data after) (fst m))) ms then Some None else None.
+Proof.
+  intros Hs. induction 1 as [|m ms ((y & r & Hq) & Hsp) _ IH]; [reflexivity|]. cbn [flat_map existsb].
+  rewrite last_lw_app, IH. destruct (existsb _ ms); [now rewrite Bool.orb_true_r|]. rewrite Bool.orb_false_r.
+  destruct (lookup (data after) (fst m)); cbn [is_none]; [now rewrite Bool.andb_false_r|]. rewrite Bool.andb_true_r.
+  now apply (last_lw_reg_del c' (fst m) y r).
+Qed.
+
+Lemma collected_sys_stored s leaf : Inv s -> Forall sys_stored (collect (data s) [] (sys_clients_pat leaf)).
+Proof.
+  intros HI. pose proof HI as (Hw & _). apply Forall_forall. intros [q e] Hin.
+  apply (collect_spec _ _ _ _ _ Hw) in Hin as (k & -> & Hl & Hm). cbn [app fst] in *. split.
+  - unfold sys_clients_pat in Hm. destruct k as [|a [|b k]]; cbn [store_match] in Hm; try discriminate.
+    + apply andb_prop in Hm as [_ Hm]. discriminate.
+    + apply andb_prop in Hm as [Hm _]. apply str_eqb_eq in Hm. subst a. exists b, k. reflexivity.
+  - pose proof (key_of_parse s k e HI Hl) as Hp. apply parse_segments_good in Hp as (Hp & _). cbn [fst]. now symmetry.
+Qed.
+
+Lemma existsb_collected s (after : core) leaf q :
+  Inv s -> store_match (sys_clients_pat leaf) q = true ->
+  existsb (fun m : list str * entry => path_eqb (fst m) q && is_none (lookup (data after) (fst m))) (collect (data s) [] (sys_clients_pat leaf)) =
+  match abs s q with Some _ => is_none (abs after q) | None => false end.
+Proof.
+  intros HI Hm. pose proof HI as (Hw & _). destruct (existsb _ _) eqn:Ex.
+  - apply existsb_exists in Ex as ([q' e] & Hin & Hb). cbn [fst] in Hb. apply andb_prop in Hb as [E Hn].
+    destruct (path_eqb_spec q' q) as [->|]; [|discriminate].
+    apply (collect_spec _ _ _ _ _ Hw) in Hin as (k & Ek & Hl & _). cbn [app] in Ek. subst k. unfold abs. now rewrite Hl.
+  - destruct (abs s q) as [e|] eqn:Ea; [|reflexivity]. destruct (is_none (abs after q)) eqn:En; [|reflexivity].
+    exfalso. apply Bool.not_true_iff_false in Ex. apply Ex. apply existsb_exists. exists (q, e). split.
+    + apply (collect_spec _ _ _ _ _ Hw). exists q. auto.
+    + cbn [fst]. now rewrite path_eqb_refl.
+Qed.
+
+Lemma existsb_not_collected s (after : core) leaf q :
+  Inv s -> store_match (sys_clients_pat leaf) q = false ->
+  existsb (fun m : list str * entry => path_eqb (fst m) q && is_none (lookup (data after) (fst m))) (collect (data s) [] (sys_clients_pat leaf)) = false.
+Proof.
+  intros HI Hm. pose proof HI as (Hw & _). destruct (existsb _ _) eqn:Ex; [|reflexivity].
+  apply existsb_exists in Ex as ([q' e] & Hin & Hb). cbn [fst] in Hb. apply andb_prop in Hb as [E Hn].
+  destruct (path_eqb_spec q' q) as [->|]; [|discriminate].
+  apply (collect_spec _ _ _ _ _ Hw) in Hin as (k & Ek & _ & Hm'). cbn [app] in Ek. subst k. congruence.
+Qed.
+
+Lemma match_own_leaf c leaf : store_match (sys_clients_pat leaf) [s_SYS; s_clients; client_str c; leaf] = true.
+Proof. unfold sys_clients_pat. cbn [store_match]. now rewrite !str_eqb_refl. Qed.
+
+Lemma removed_regs_gg s (after : core) c c' :
+  Inv s -> small c' -> c' <> c ->
+  last_gg c' (removed_regs c s after) =
+  match abs s (gg_path c') with Some _ => if is_none (abs after (gg_path c')) then Some None else None | None => None end.
+Proof.
+  intros HI Hs Hne. unfold removed_regs. rewrite (last_gg_not_own c c' _ Hne).
+  rewrite (last_gg_flat c' after _ Hs) by (apply Forall_app; split; now apply collected_sys_stored).
+  rewrite existsb_app, (existsb_collected s after s_graveGoods (gg_path c') HI (match_own_leaf c' s_graveGoods)).
+  rewrite (existsb_not_collected s after s_lastWill (gg_path c') HI) by (unfold sys_clients_pat, gg_path; cbn [store_match]; rewrite !str_eqb_refl; reflexivity).
+  rewrite Bool.orb_false_r. destruct (abs s (gg_path c')); [|reflexivity]. now destruct (is_none _).
+Qed.
+Lemma removed_regs_lw s (after : core) c c' :
+  Inv s -> small c' -> c' <> c ->
+  last_lw c' (removed_regs c s after) =
+  match abs s (lw_path c') with Some _ => if is_none (abs after (lw_path c')) then Some None else None | None => None end.
+Proof.
+  intros HI Hs Hne. unfold removed_regs. rewrite (last_lw_not_own c c' _ Hne).
+  rewrite (last_lw_flat c' after _ Hs) by (apply Forall_app; split; now apply collected_sys_stored).
+  rewrite existsb_app, (existsb_collected s after s_lastWill (lw_path c') HI (match_own_leaf c' s_lastWill)).
+  rewrite (existsb_not_collected s after s_graveGoods (lw_path c') HI) by (unfold sys_clients_pat, lw_path; cbn [store_match]; rewrite !str_eqb_refl; reflexivity).
+  cbn [orb]. destruct (abs s (lw_path c')); [|reflexivity]. now destruct (is_none _).
+Qed.
+
+(* ---- the end of a session ---- *)
+Definition no_zombie (s : core) (c : cid) : Prop := Forall (fun kv => starts_with s_SYS_prefix (fst kv) = false) (lw_of s c).
+
+Lemma nocrash_app a b : nocrash (a ++ b) -> nocrash a /\ nocrash b.
+Proof. intros H. split; intros x Hx; apply H; apply in_or_app; [now left|now right]. Qed.
+
+Lemma reg_paths_4 c q : q = gg_path c \/ q = lw_path c -> exists x leaf, q = [s_SYS; s_clients; x; leaf].
+Proof. intros [->| ->]; unfold gg_path, lw_path; eauto. Qed.
+
+Lemma end_ops_miss s c c' q :
+  small c' -> no_zombie s c -> q = gg_path c' \/ q = lw_path c' -> Forall (misses q) (end_ops s c).
+Proof.
+  intros Hs Hz Hq. destruct (key_facts_spec c' Hs) as (_ & _ & Pg & Pl & _).
+  assert (Hpre : forall k, parse_segments k = Ok q -> starts_with s_SYS_prefix k = true).
+  { intros k Hp. rewrite (key_of_path k q Hp). now destruct Hq as [-> | ->]. }
+  unfold end_ops. apply Forall_forall. intros o Hin.
+  repeat (apply in_app_iff in Hin as [Hin|Hin]); try (apply in_map_iff in Hin as (x & <- & Hx)); try (destruct Hin as [<-|[]]); try exact I.
+  - cbn [misses]. intros Hp. apply parse_segments_good in Hp as (Hp & _). destruct (reg_paths_4 c' q Hq) as (x & leaf & ->).
+    vm_compute in Hp. discriminate.
+  - cbn [misses]. intros Hp. unfold no_zombie in Hz. rewrite Forall_forall in Hz. specialize (Hz x Hx). rewrite (Hpre _ Hp) in Hz. discriminate.
+Qed.
+
+Theorem reg_track_session_end s t c :
+  Inv s -> LenInv s -> RegTracks s t -> small c -> no_zombie s c ->
+  o_res (snd (step s (ODisconnected c))) = RUnit ->
+  RegTracks (fst (step s (ODisconnected c))) (apply_all t (actions_of s (ODisconnected c))).
+Proof.
+  intros HI HL HT Hsc Hz Hres. pose proof Hsc as (Hc0 & Hclt).
+  assert (H0 : N.eqb c 0 = false) by now apply N.eqb_neq.
+  assert (Hc : is_crash (snd (do_disconnected s c)) = false) by (unfold is_crash; cbn [step] in Hres; now rewrite Hres).
+  destruct (disconnected_is_run s c H0 Hc) as (F & _ & _ & Nc).
+  destruct (prep_same s c) as (Ed & El & _).
+  assert (Ea : abs (prep s c) = abs s) by (unfold abs; now rewrite Ed).
+  assert (HIp : Inv (prep s c)) by (unfold Inv in *; now rewrite Ed).
+  assert (HLp : LenInv (prep s c)) by (unfold LenInv in *; now rewrite Ed, El).
+  unfold actions_of. rewrite Hres. cbn [step] in *. set (s' := fst (do_disconnected s c)) in *.
+  (* every action is about a row or a registration; none clears *)
+  assert (Hregs : forall a, In a (removed_regs c s s') -> match a with AGG _ _ | ALW _ _ => True | _ => False end).
+  { intros a Hin. unfold removed_regs in Hin. apply filter_In in Hin as (Hin & _). apply in_flat_map in Hin as (m & _ & Hin).
+    destruct (lookup (data s') (fst m)); [destruct Hin|].
+    pose proof (reg_del_v2_only (key_of (fst m))) as Hf. rewrite Forall_forall in Hf. specialize (Hf a Hin).
+    destruct a; try contradiction; exact I. }
+  assert (Hnc : Forall no_clear (removed_keys s s' ++ removed_regs c s s' ++ written_keys s s' ++ [AGG c None; ALW c None])).
+  { apply Forall_forall. intros a Hin. unfold removed_keys, written_keys in Hin.
+    repeat (apply in_app_iff in Hin as [Hin|Hin]).
+    - apply in_flat_map in Hin as (m & _ & Hin). destruct (lookup (data s') (fst m)); [destruct Hin|]. destruct Hin as [<-|[]]. exact I.
+    - specialize (Hregs a Hin). destruct a; try contradiction; exact I.
+    - apply in_flat_map in Hin as (m & _ & Hin). destruct (entry_eqb' _ _); [destruct Hin|]. destruct Hin as [<-|[]]. exact I.
+    - destruct Hin as [<-|[<-|[]]]; exact I. }
+  assert (Hrk : forall x, last_gg x (removed_keys s s') = None /\ last_lw x (removed_keys s s') = None).
+  { intros x. unfold removed_keys. induction (user_all s) as [|m ms IH]; [split; reflexivity|]. cbn [flat_map].
+    rewrite last_gg_app, last_lw_app. destruct IH as (-> & ->). destruct (lookup (data s') (fst m)); split; reflexivity. }
+  assert (Hwk : forall x, last_gg x (written_keys s s') = None /\ last_lw x (written_keys s s') = None).
+  { intros x. unfold written_keys. induction (user_all s') as [|m ms IH]; [split; reflexivity|]. cbn [flat_map].
+    rewrite last_gg_app, last_lw_app. destruct IH as (-> & ->). destruct (entry_eqb' _ _); split; reflexivity. }
+  intros c' Hs'. destruct (HT c' Hs') as (HTg & HTl).
+  rewrite apply_all_gg, apply_all_lw by exact Hnc.
+  rewrite !last_gg_app, !last_lw_app. rewrite (proj1 (Hrk c')), (proj2 (Hrk c')), (proj1 (Hwk c')), (proj2 (Hwk c')).
+  cbn [last_gg last_lw].
+  destruct (N.eqb_spec c' c) as [->|Hne].
+  - (* the ending client: its registrations are gone from the store *)
+    assert (Hgone : forall q, q = gg_path c \/ q = lw_path c -> abs s' q = None).
+    { intros q Hq. rewrite F.
+      set (PRE := [OSet 0 (topic [s_SYS; s_clients]) (jnum (N.of_nat (length (filter (fun x => negb (N.eqb x c)) (clients s))))) true]
+                  ++ map (fun id => OUnsubscribe (fst id) (snd id)) (ids_of c (subscriptions s))
+                  ++ map (fun id => OUnsubscribeLs (fst id) (snd id)) (ids_of c (ls_subscriptions s))).
+      set (PD := OPDelete 0 (own_pat c)).
+      set (POST := map (fun g => OPDelete c g) (gg_of s c) ++ map (fun kv => OSet c (fst kv) (snd kv) true) (lw_of s c)).
+      assert (Eops : end_ops s c = PRE ++ [PD] ++ POST) by (unfold end_ops, PRE, PD, POST, own_pat; rewrite <- !app_assoc; reflexivity).
+      pose proof (end_ops_end s c) as He. pose proof (end_ops_miss s c c q Hsc Hz Hq) as Hmi. pose proof Nc as Hn.
+      rewrite Eops in He, Hmi, Hn |- *.
+      apply Forall_app in He as (He1 & He3). apply Forall_app in He3 as (He2 & He3).
+      apply Forall_app in Hmi as (Hm1 & Hm3). apply Forall_app in Hm3 as (Hm2 & Hm3).
+      rewrite trace_app in Hn. apply nocrash_app in Hn as (Hn1 & Hn3). rewrite trace_app in Hn3. apply nocrash_app in Hn3 as (Hn2 & Hn3).
+      rewrite !final_app in *.
+      destruct (end_run_keep q PRE (prep s c) HIp HLp He1 Hm1 Hn1) as (HI1 & HL1 & _).
+      set (s1 := final (prep s c) PRE) in *.
+      destruct (end_run_keep q [PD] s1 HI1 HL1 He2 Hm2 Hn2) as (HI2 & HL2 & _).
+      assert (E2 : abs (final s1 [PD]) q = None).
+      { subst PD. unfold final. cbn [fold_left step]. destruct (pat_facts_small c Hsc) as (Wf & Mg & Ml & Ck).
+        rewrite (do_pdelete_accepts s1 0 _ HI1 Ck Wf). unfold m_pdel. now destruct Hq as [-> | ->]; rewrite ?Mg, ?Ml. }
+      destruct (end_run_keep q POST (final s1 [PD]) HI2 HL2 He3 Hm3 Hn3) as (_ & _ & [E|E]); [now rewrite E|exact E]. }
+    unfold gg_store, lw_store. rewrite (Hgone (gg_path c)), (Hgone (lw_path c)) by auto.
+    destruct (last_gg c (removed_regs c s s')), (last_lw c (removed_regs c s s')); split; reflexivity.
+  - (* another client: its registrations stay, or a burial removed them *)
+    rewrite (removed_regs_gg s s' c c' HI Hs' Hne), (removed_regs_lw s s' c c' HI Hs' Hne).
+    assert (Hkeep : forall q, q = gg_path c' \/ q = lw_path c' -> abs s' q = abs s q \/ abs s' q = None).
+    { intros q Hq. rewrite F, <- Ea.
+      exact (proj2 (proj2 (end_run_keep q (end_ops s c) (prep s c) HIp HLp (end_ops_end s c) (end_ops_miss s c c' q Hs' Hz Hq) Nc))). }
+    unfold gg_store, lw_store in *. split.
+    + destruct (Hkeep (gg_path c')) as [E|E]; [now left|rewrite E|rewrite E]; destruct (abs s (gg_path c')); cbn [is_none]; try reflexivity; exact HTg.
+    + destruct (Hkeep (lw_path c')) as [E|E]; [now right|rewrite E|rewrite E]; destruct (abs s (lw_path c')); cbn [is_none]; try reflexivity; exact HTl.
+Qed.
+
+Lemma hexdig_no_slash a : hexdig a <> slash.
+Proof. unfold hexdig, slash. destruct (N.ltb a 10); lia. Qed.
+
+Lemma client_str_nosep c : no_sep slash (client_str c).
+Proof.
+  unfold client_str, no_sep. destruct (N.eqb c 0).
+  - unfold uuid_nil, slash. cbn [In]. intros H. repeat (destruct H as [H|H]; [discriminate|]). exact H.
+  - intros H. apply in_app_or in H as [H|H].
+    + unfold uuid_prefix, slash in H. cbn [In] in H. repeat (destruct H as [H|H]; [discriminate|]). exact H.
+    + destruct H as [H|[H|[]]]; now apply hexdig_no_slash in H.
+Qed.
+
+Lemma split_client_topic c leaf : no_sep slash leaf ->
+  split slash (topic [s_SYS; s_clients; client_str c; leaf]) = [s_SYS; s_clients; client_str c; leaf].
+Proof.
+  intros Hl. unfold topic. apply split_join; [discriminate|].
+  repeat (apply Forall_cons; [|]); try apply Forall_nil; try exact Hl; try apply client_str_nosep;
+    unfold no_sep, s_SYS, s_clients, slash; cbn [In]; intros H; repeat (destruct H as [H|H]; [discriminate|]); exact H.
+Qed.
+
+(* ---- any request ---- *)
+Definition reg_op (s : core) (o : op) : Prop :=
+  match o with
+  | OSet c _ _ _ | OCSet c _ _ _ _ => small c
+  | ODelete c _ | OPDelete c _ => c <> 0
+  | ODisconnected c => small c /\ no_zombie s c
+  | OImport _ => False
+  | _ => True
+  end.
+
+Lemma RegTracks_same s s' t :
+  (forall c q, small c -> q = gg_path c \/ q = lw_path c -> abs s' q = abs s q) -> RegTracks s t -> RegTracks s' t.
+Proof. intros H HT c Hs. unfold gg_store, lw_store. rewrite (H c (gg_path c)), (H c (lw_path c)) by auto. now apply HT. Qed.
+
+Theorem reg_track_step s t o :
+  Inv s -> LenInv s -> RegTracks s t -> reg_op s o -> o_res (snd (step s o)) <> RCrash ->
+  RegTracks (fst (step s o)) (apply_all t (actions_of s o)).
+Proof.
+  intros HI HL HT Ho Hnc.
+  assert (Hother : other_op o -> actions_of s o = [] -> RegTracks (fst (step s o)) (apply_all t (actions_of s o))).
+  { intros Hoo Ha. rewrite Ha. pose proof (other_data_same s o Hoo) as Ed. unfold apply_all. cbn [fold_left].
+    apply (RegTracks_same s); [|exact HT]. intros c0 q _ _. unfold abs. now rewrite Ed. }
+  assert (Hread : fst (step s o) = s -> actions_of s o = [] -> RegTracks (fst (step s o)) (apply_all t (actions_of s o))).
+  { intros E Ha. rewrite Ha, E. exact HT. }
+  destruct o; try contradiction;
+    try (apply Hread; [reflexivity|unfold actions_of; cbn [step]; reflexivity]);
+    try (apply Hother; [exact I|unfold actions_of; cbn [step];
+         repeat match goal with |- context [match ?x with _ => _ end] => destruct x end; reflexivity]).
+  - (* set *)
+    unfold actions_of. cbn [step] in *. destruct (o_res (snd (do_insert s c k (Plain v) force))) eqn:Er;
+      try (pose proof (do_insert_effect s c k (Plain v) force HI) as H; cbv zeta in H; rewrite Er in H; try contradiction; rewrite H; exact HT).
+    apply reg_track_insert; try assumption. intros ex ch e' p Hd. now rewrite (decide_plain _ _ _ _ _ _ Hd).
+  - unfold actions_of. cbn [step] in *. destruct (o_res (snd (do_insert s c k (Cas v ver) force))) eqn:Er;
+      try (pose proof (do_insert_effect s c k (Cas v ver) force HI) as H; cbv zeta in H; rewrite Er in H; try contradiction; rewrite H; exact HT).
+    apply reg_track_insert; try assumption. intros ex ch e' p Hd. rewrite (decide_cas _ _ _ _ _ _ _ Hd). unfold cset_result.
+    destruct force; [destruct (abs s p) as [[?|? ?]|]|]; reflexivity.
+  - exact (reg_track_delete s t c k HI HT Ho).
+  - exact (reg_track_pdelete s t c p HI HT Ho).
+  - (* connected: three sets of the server under $SYS/, none of them a registration key *)
+    assert (Ha : actions_of s (OConnected c) = []).
+    { unfold actions_of. now destruct (o_res (snd (step s (OConnected c)))). }
+    rewrite Ha. unfold apply_all. cbn [fold_left].
+    assert (Hcr : is_crash (snd (step s (OConnected c))) = false)
+      by (unfold is_crash; destruct (o_res (snd (step s (OConnected c)))); congruence).
+    destruct (expand_runs s (OConnected c) Hcr) as (F & _ & _ & Nc). rewrite F. cbn [expand] in *.
+    destruct (N.eqb c 0 || existsb (N.eqb c) (clients s))%bool; cbn [fst snd] in *; [exact HT|].
+    apply (RegTracks_same s); [|exact HT].
+    { intros c' q Hs' Hq. change (abs s q) with (abs (conn_prep s c) q). apply sets_run_same; try assumption.
+      - unfold conn_ops. repeat constructor.
+      - destruct (reg_paths_4 c' q Hq) as (x & leaf & ->). unfold conn_ops.
+        repeat (apply Forall_cons; [cbn [misses]; intros Hp; apply parse_segments_good in Hp as (Hp & _)|]); [| | |apply Forall_nil].
+        + vm_compute in Hp. discriminate.
+        + rewrite split_client_topic in Hp by (unfold no_sep, s_protocol, slash; cbn [In]; intros H; repeat (destruct H as [H|H]; [discriminate|]); exact H).
+          injection Hp as _ Hp. destruct Hq as [Hq|Hq]; injection Hq as _ Hq; rewrite Hq in Hp; discriminate.
+        + rewrite split_client_topic in Hp by (unfold no_sep, s_address, slash; cbn [In]; intros H; repeat (destruct H as [H|H]; [discriminate|]); exact H).
+          injection Hp as _ Hp. destruct Hq as [Hq|Hq]; injection Hq as _ Hq; rewrite Hq in Hp; discriminate. }
+  - (* disconnected *)
+    destruct Ho as (Hs & Hz).
+    assert (Hres : o_res (snd (step s (ODisconnected c))) = RUnit).
+    { cbn [step] in *. unfold do_disconnected in *. destruct (N.eqb c 0); [cbn in Hnc; congruence|].
+      destruct (match assoc_get N.eqb c (locked_keys (set_spub s _)) with Some _ => _ | None => _ end) as [[[l' g] x] cr].
+      destruct cr; [cbn in Hnc; congruence|]. cbn [snd]. cbn [snd] in Hnc.
+      match goal with |- o_res (if ?b then _ else _) = _ => destruct b eqn:Eb end; [|reflexivity].
+      exfalso. apply Hnc. match type of Eb with is_crash ?o = true => unfold is_crash in Eb; destruct (o_res o); try discriminate; reflexivity end. }
+    now apply reg_track_session_end.
+Qed.
+
+(* ---- any history ---- *)
+Fixpoint reg_hist (s : core) (os : list op) : Prop :=
+  match os with [] => True | o :: r => redb_op o /\ reg_op s o /\ reg_hist (fst (step s o)) r end.
+
+(* after any history of client requests of every kind except import, sessions starting and ending included, and once the
+   queued actions are applied: all three tables of the database follow the store -- the row of every key outside $SYS/ is
+   the stored entry (CAS rows one version behind: F13), and the grave-goods / last-will table entry of every client is what
+   its registration key holds *)
+Theorem tables_track_any os : forall s t,
+  Inv s -> LenInv s -> tracks s t -> RegTracks s t -> abs s [s_SYS] = None -> reg_hist s os -> no_crash_run s os ->
+  Inv (final s os) /\ tracks (final s os) (apply_all t (any_actions s os)) /\ RegTracks (final s os) (apply_all t (any_actions s os)).
+Proof.
+  induction os as [|o os IH]; intros s t HI HL HT HR Hr Ho Hnc; [cbn; auto|].
+  destruct Ho as (Ho1 & Ho2 & Hos). destruct Hnc as (Hc & Hrest).
+  destruct (track_any_step s t o HI HL HT Hr Ho1 Hc) as (HI' & HL' & HT' & Hr').
+  pose proof (reg_track_step s t o HI HL HR Ho2 Hc) as HR'.
+  change (final s (o :: os)) with (final (fst (step s o)) os). cbn [any_actions].
+  unfold apply_all. rewrite fold_left_app. fold (apply_all t (actions_of s o)).
+  fold (apply_all (apply_all t (actions_of s o)) (any_actions (fst (step s o)) os)). now apply IH.
+Qed.
+
+Lemma RegTracks_init : RegTracks init t_empty.
+Proof. intros c _. split; reflexivity. Qed.
+
+Theorem tables_track_any_init os :
+  reg_hist init os -> no_crash_run init os ->
+  tracks (final init os) (apply_all t_empty (any_actions init os)) /\
+  RegTracks (final init os) (apply_all t_empty (any_actions init os)).
+Proof.
+  intros Ho Hnc. apply (tables_track_any os init t_empty Inv_init eq_refl tracks_init RegTracks_init); try assumption.
+  unfold abs. cbn. reflexivity.
+Qed.
+
+(* the hypotheses are satisfiable, and the statement says something: a client registers grave goods and a last will,
+   withdraws the grave goods by deleting the key (F28), a second client's burial pattern starts with a wildcard and removes
+   the first client's last will (F4) *)
+Definition demo_hist : list op :=
+  [OConnected 1; OConnected 2;
+   OSet 1 (key_of (gg_path 1)) (JArr [JStr [120;47;35]]) false;
+   OSet 1 (key_of (lw_path 1)) (JArr [JObj [([107;101;121], JStr [119]); ([118;97;108;117;101], JNum [49])]]) false;
+   ODelete 1 (key_of (gg_path 1));
+   OSet 2 (key_of (gg_path 2)) (JArr [JStr [63;47;99;108;105;101;110;116;115;47;63;47;108;97;115;116;87;105;108;108]]) false;
+   ODisconnected 2].
+
+Example demo_hist_ok :
+  let T := apply_all t_empty (any_actions init demo_hist) in
+  let T4 := apply_all t_empty (any_actions init (firstn 4 demo_hist)) in
+  c_get 1 (t_gg T4) = Some [[120;47;35]] /\ c_get 1 (t_lw T4) = Some [([119], JNum [49])] /\
+  c_get 1 (t_gg T) = None /\ c_get 1 (t_lw T) = None /\ c_get 2 (t_gg T) = None /\
+  gg_store (final init demo_hist) 1 = None /\ lw_store (final init demo_hist) 1 = None.
+Proof. vm_compute. repeat split; reflexivity. Qed.
+
+Example demo_hist_hyps : reg_hist init demo_hist /\ no_crash_run init demo_hist.
+Proof.
+  vm_compute.
+  repeat match goal with
+         | |- _ /\ _ => split
+         | |- True => exact I
+         | |- _ = _ => reflexivity
+         | |- _ <> _ => discriminate
+         | |- _ -> False => discriminate
+         | |- Forall _ [] => constructor
+         | |- Forall _ (_ :: _) => constructor
+         end.
+Qed.
